@@ -1,8 +1,9 @@
-(* C20 driver: scenario = [ :opt <run-ignored 0|1> <passes> ] <dur> <nfilters> { <name> } <ntests> { <group> <name> <file> <line> <ignored> <nstmts> { :p <text> | :f <file> <line> <msg> | :x <file> <line> <msg> } }
-   (without the :opt prefix: run-ignored off, one pass)
+(* C20 driver: scenario = [ :con <sink 0|1|2> <verbosity 0|1|2> ] [ :opt <run-ignored 0|1> <passes> ] <dur> <nfilters> { <name> } <ntests> { <group> <name> <file> <line> <ignored> <nstmts> { :p <text> | :f <file> <line> <msg> | :x <file> <line> <msg> } }
+   (without the :con prefix: sink 0 = printBuffer overridden, quiet; without the :opt prefix: run-ignored off, one pass)
    observation = <stream> <n> { <executions of the body of test i in pass p> }  (pass-major, n = passes * ntests).
    Extra form (parser differential, no implementation involved): :raw <bytes>; the model answers
-   :parsed 0   or   :parsed 1 <nmsgs> { <name> <nattrs> { <key> <value> } }   (checks/C20.py compares this with its own decoder) *)
+   :parsed 0   or   :parsed 1 <nmsgs> { <name> <nattrs> { <key> <value> } }   (checks/C20.py compares this with its own decoder);
+   :rawv <bytes> = the same for the message-anywhere reading used for very verbose streams *)
 let stmt c =
   match next c with
   | ":p" -> SPrint (bytes_tok (next c))
@@ -14,11 +15,13 @@ let test c =
   let ign = bool_tok (next c) in let body = counted c stmt in
   { t_group = g; t_name = n; t_file = f; t_line = l; t_ignored = ign; t_body = body }
 let scenario c =
+  let (sink, verb) =
+    if peek c = Some ":con" then (ignore (next c); let k = n_tok (next c) in let v = n_tok (next c) in (k, v)) else (n_tok "0", n_tok "0") in
   let (ri, passes) =
     if peek c = Some ":opt" then (ignore (next c); let r = bool_tok (next c) in let p = int_tok (next c) in (r, p)) else (false, 1) in
   if passes < 0 || passes > 8 then raise (Bad "more than 8 passes");
   let d = n_tok (next c) in let fs = counted c (fun c -> bytes_tok (next c)) in let ts = counted c test in
-  { s_dur = d; s_ri = ri; s_passes = nat_of_int passes; s_filters = fs; s_tests = ts }
+  { s_dur = d; s_ri = ri; s_passes = nat_of_int passes; s_filters = fs; s_tests = ts; s_verb = verb; s_sink = sink }
 let pobs o = String.concat " " (pbytes o.o_stream :: Printf.sprintf "%x" (List.length o.o_exec) :: List.map pn o.o_exec)
 let obs_toks os =
   match os with
@@ -33,10 +36,12 @@ let pparsed r =
 let run_line ts =
   match ts with
   | ":raw" :: b :: _ -> pparsed (parse_result (bytes_tok b))
+  | ":rawv" :: b :: _ -> pparsed (parse_result_any (bytes_tok b))
   | _ -> let c = { rest = ts } in let s = scenario c in
-         if not (valid s) then raise (Bad "scenario outside the property's domain (printing test body, number beyond size_t, NUL in a string)") else pobs (run s)
+         if not (valid s) then raise (Bad "scenario outside the property's domain (printing test body, number beyond size_t, NUL in a string, unknown sink / verbosity)") else pobs (run s)
 let spec_line ts os =
   match ts with
   | ":raw" :: _ -> true
+  | ":rawv" :: _ -> true
   | _ -> let c = { rest = ts } in let s = scenario c in
          (match obs_toks os with Some o -> spec s o | None -> false)
